@@ -48,7 +48,8 @@ def cases(rng, tier):
     G.setup()
     cs = []
     n = 120 if tier == "quick" else 2500
-    fams = [("layout", G.gen_layout), ("exprs", G.gen_exprs), ("range", G.gen_range), ("macros", G.gen_macros), ("emacros", G.gen_emacros)]
+    fams = [("layout", G.gen_layout), ("exprs", G.gen_exprs), ("range", G.gen_range), ("macros", G.gen_macros), ("emacros", G.gen_emacros),
+            ("shrink", G.gen_shrink)]
     valid = family_cases(rng, fams, n // 4, faults=0.6)
     for c in valid:
         c.pop("want_ok", None); c.pop("want_err", None)
@@ -86,6 +87,9 @@ def cases(rng, tier):
     ]
     for top, ents in graphs:
         cs.append({"line": F.line(top, ents), "tags": ["file-graph"], "src": top})
+    # for this property bounded time IS the observable: a request that exceeds the wall-clock limit is a failure
+    for c in cs:
+        c["time_observable"] = True
     return cs
 
 
